@@ -889,3 +889,186 @@ Proof.
   intros k n c w Hk (fs & ops & E). pose proof (run_cls ops (init_state k n fs)) as H. rewrite E in H.
   cbn [fst init_state] in H. destruct k; try discriminate Hk; cbn [new_coll cls] in H; destruct c; try discriminate H; reflexivity.
 Qed.
+
+(* ------------------------------------------------------------------ C17_batch / C17_schema: what Add does, per class *)
+Lemma uc_add_res_cases : forall u d,
+  (uc_mcount u <> 0 /\ Z.of_nat (length d) <> uc_mcount u /\ uc_add_res u d = RCount) \/
+  ((uc_mcount u = 0 \/ Z.of_nat (length d) = uc_mcount u) /\
+   ((uc_batch u <= Z.of_nat (length (uc_samples u)) /\ uc_add_res u d = RFull) \/
+    (Z.of_nat (length (uc_samples u)) < uc_batch u /\ uc_add_res u d = ROk))).
+Proof.
+  intros u d. unfold uc_add_res.
+  destruct (uc_mcount u =? 0) eqn:E0; cbn [negb andb].
+  - apply Z.eqb_eq in E0. right. split; [left; exact E0|].
+    destruct (uc_batch u <=? Z.of_nat (length (uc_samples u))) eqn:Eb.
+    + left. apply Z.leb_le in Eb. split; [exact Eb|reflexivity].
+    + right. apply Z.leb_gt in Eb. split; [exact Eb|reflexivity].
+  - apply Z.eqb_neq in E0. destruct (Z.of_nat (length d) =? uc_mcount u) eqn:El; cbn [negb].
+    + apply Z.eqb_eq in El. right. split; [right; exact El|].
+      destruct (uc_batch u <=? Z.of_nat (length (uc_samples u))) eqn:Eb.
+      * left. apply Z.leb_le in Eb. split; [exact Eb|reflexivity].
+      * right. apply Z.leb_gt in Eb. split; [exact Eb|reflexivity].
+    + apply Z.eqb_neq in El. left. repeat split; assumption.
+Qed.
+
+(* plain kinds: no write, the outcome is uc_add_res, samples grow iff accepted *)
+Theorem unc_add_plain : forall k n u w d now, unc_kind k = true -> 1 <= n -> reachable deflate k n (CUnc u, w) ->
+  uc_batch u = n /\
+  Forall (fun s : doc => s = [] \/ Z.of_nat (length s) = uc_mcount u) (uc_samples u) /\
+  exists u', step deflate (CUnc u, w) (OAdd d now) = ((CUnc u', w), BAdd (uc_add_res u d)) /\
+    uc_meta u' = uc_meta u /\
+    uc_samples u' = uc_samples u ++ (match uc_add_res u d with ROk => [d] | _ => [] end).
+Proof.
+  intros k n u w d now Hk Hn Hr. destruct (reachable_holds k n _ _ Hk Hn Hr) as (u0 & E & Hu). subst u0.
+  pose proof Hu as (_ & Hb & _ & Hall & _). split; [exact Hb|]. split; [exact Hall|].
+  destruct (uc_add_spec _ n u d Hn Hu) as (u' & Ha & _ & Hm & Hs).
+  exists u'. cbn [step c_add]. rewrite Ha. repeat split; assumption.
+Qed.
+
+(* streaming kinds below capacity: as the plain kinds *)
+Theorem unc_add_stream_room : forall k n s u w d now, unc_kind k = true -> 1 <= n ->
+  reachable deflate k n (CStream s, w) -> sc_inner s = IU u ->
+  sc_count s = Z.of_nat (length (uc_samples u)) /\ sc_max s = n /\
+  Forall (fun x : doc => x = [] \/ Z.of_nat (length x) = uc_mcount u) (uc_samples u) /\
+  (Z.of_nat (length (uc_samples u)) < n ->
+   exists s' u', step deflate (CStream s, w) (OAdd d now) = ((CStream s', w), BAdd (uc_add_res u d)) /\
+     sc_inner s' = IU u' /\ uc_meta u' = uc_meta u /\
+     uc_samples u' = uc_samples u ++ (match uc_add_res u d with ROk => [d] | _ => [] end)).
+Proof.
+  intros k n s u w d now Hk Hn Hr Hi. destruct (reachable_holds k n _ _ Hk Hn Hr) as (u0 & Hh). cbn [st_holds] in Hh.
+  pose proof Hh as (Hi0 & Hu & Hm & Hc). rewrite Hi in Hi0. injection Hi0 as E. subst u0.
+  pose proof Hu as (_ & _ & _ & Hall & _).
+  split; [exact Hc|]. split; [exact Hm|]. split; [exact Hall|]. intros Hlt.
+  destruct (sc_add_room _ n s u w d now Hn Hh Hlt) as (s' & u' & Ha & (Hi' & _) & Hmeta & Hs & _).
+  exists s', u'. cbn [step c_add]. rewrite Ha. repeat split; assumption.
+Qed.
+
+(* streaming and schema-aware kinds at capacity: everything pending is handed to
+   the writer first; if the write is acknowledged the document is accepted into
+   the emptied collector, otherwise nothing changes and Add fails *)
+Theorem unc_add_full : forall k n c w d now, unc_kind k = true -> 1 <= n -> reachable deflate k n (c, w) ->
+  plain_kind k = false -> n <= Z.of_nat (length (pend c)) ->
+  let P := ODocs (kind_json k) (mh (cmeta c) ++ pend c) in
+  exists w' ok e, w_write w P = (w', ok) /\ log_ev w w' P e /\ (ok = true <-> e = WDone) /\
+    if ok then exists c', step deflate (c, w) (OAdd d now) = ((c', w'), BAdd ROk) /\ cmeta c' = cmeta c /\ pend c' = [d]
+    else step deflate (c, w) (OAdd d now) = ((c, w'), BAdd RFlush).
+Proof.
+  intros k n c w d now Hk Hn Hr Hp Hge. cbn zeta.
+  destruct (reachable_holds k n _ _ Hk Hn Hr) as (u & Hh).
+  pose proof (reachable_class k n c w Hk Hr) as Hc.
+  destruct (st_holds_pend _ _ _ _ Hh) as (Ep & Em & _). rewrite Ep in *. rewrite Em.
+  destruct c as [| | |s|x|x]; try contradiction; [| |rewrite Hc in Hp; discriminate Hp]; cbn [st_holds] in Hh.
+  - destruct (sc_add_full _ n s u w d now Hn Hh Hge) as (_ & w' & ok & e & Hw & Hlog & Hok & Hres).
+    exists w', ok, e. split; [exact Hw|]. split; [exact Hlog|]. split; [exact Hok|]. cbn [step c_add].
+    destruct ok.
+    + destruct Hres as (s' & u' & Ha & Hh' & Hm & Hs). rewrite Ha. exists (CStream s'). split; [reflexivity|].
+      destruct (st_holds_pend _ n (CStream s') u' Hh') as (Ep' & Em' & _). rewrite Ep', Em'. split; assumption.
+    + rewrite Hres. reflexivity.
+  - pose proof Hh as (Hs & _).
+    assert (Hne : uc_samples u <> []) by (intros E; rewrite E in Hge; cbn [length] in Hge; lia).
+    destruct (sd_changed x d) eqn:Hch.
+    + destruct (sd_add_change _ n x u w d now Hn Hh Hch Hne) as (w' & ok & e & Hw & Hlog & Hok & Hres).
+      exists w', ok, e. split; [exact Hw|]. split; [exact Hlog|]. split; [exact Hok|]. cbn [step c_add].
+      destruct ok.
+      * destruct Hres as (c' & u' & Ha & Hh' & Hm & Hsm). rewrite Ha. exists (CSDyn c'). split; [reflexivity|].
+        destruct (st_holds_pend _ n (CSDyn c') u' Hh') as (Ep' & Em' & _). rewrite Ep', Em'. split; assumption.
+      * rewrite Hres. reflexivity.
+    + destruct (sc_add_full _ n (sd_s x) u w d now Hn Hs Hge) as (_ & w' & ok & e & Hw & Hlog & Hok & Hres).
+      exists w', ok, e. split; [exact Hw|]. split; [exact Hlog|]. split; [exact Hok|]. cbn [step c_add].
+      rewrite sd_add_eq, Hch. cbn [negb].
+      destruct ok.
+      * destruct Hres as (s' & u' & Ha & Hh' & Hm & Hsm). rewrite Ha. eexists. split; [reflexivity|].
+        destruct Hh' as (Hi' & _). unfold cmeta, pend. cbn [coll_ucoll sd_s]. rewrite Hi'. cbn [inner_ucoll]. split; assumption.
+      * rewrite Hres. rewrite sdcoll_eta. reflexivity.
+Qed.
+
+(* schema-aware kinds: the pending samples share one signature, and the schema
+   test compares the document with them *)
+Lemma sd_changed_pending : forall j n x u d, sd_holds j n x u -> uc_samples u <> [] ->
+  (sd_changed x d = false <-> forall s, In s (uc_samples u) -> schema_sig s = schema_sig d).
+Proof.
+  intros j n x u d (_ & Hh) Hne. unfold sd_changed. destruct (sd_hash x) as [h|].
+  - rewrite Forall_forall in Hh. split.
+    + intros Hch s Hin. apply orb_false_iff in Hch. destruct Hch as [H1 H2].
+      apply negb_false_iff in H1, H2. apply Z.eqb_eq in H1. apply up_bytes_eqb_true in H2.
+      rewrite (Hh s Hin). destruct (schema_sig d). cbn [fst snd] in *. subst. reflexivity.
+    + intros Hall. destruct (uc_samples u) as [|s0 r] eqn:Es; [contradiction|].
+      specialize (Hall s0 (or_introl eq_refl)). rewrite (Hh s0 (or_introl eq_refl)) in Hall. rewrite <- Hall.
+      cbn [fst snd]. rewrite Z.eqb_refl, up_bytes_eqb_refl. reflexivity.
+  - contradiction.
+Qed.
+
+Theorem unc_add_sdyn : forall k n x u w d now, unc_kind k = true -> 1 <= n ->
+  reachable deflate k n (CSDyn x, w) -> sc_inner (sd_s x) = IU u -> next_write_ok w ->
+  let c := CSDyn x in
+  let P := ODocs (kind_json k) (mh (uc_meta u) ++ uc_samples u) in
+  (* the pending samples have one signature; "changed" means: differs from theirs *)
+  (uc_samples u <> [] -> (sd_changed x d = false <-> forall s, In s (uc_samples u) -> schema_sig s = schema_sig d)) /\
+  (* nothing pending: accepted without a write *)
+  (uc_samples u = [] ->
+     exists c', step deflate (c, w) (OAdd d now) = ((c', w), BAdd ROk) /\ cmeta c' = uc_meta u /\ pend c' = [d]) /\
+  (* schema change or capacity: a new output starts *)
+  (uc_samples u <> [] -> sd_changed x d = true \/ n <= Z.of_nat (length (uc_samples u)) ->
+     exists c' w', step deflate (c, w) (OAdd d now) = ((c', w'), BAdd ROk) /\
+       w_log w' = w_log w ++ [WFull P] /\ cmeta c' = uc_meta u /\ pend c' = [d]) /\
+  (* same schema, room: the wrapped collector decides (top-level field count) *)
+  (uc_samples u <> [] -> sd_changed x d = false -> Z.of_nat (length (uc_samples u)) < n ->
+     exists c', step deflate (c, w) (OAdd d now) = ((c', w), BAdd (uc_add_res u d)) /\ cmeta c' = uc_meta u /\
+       pend c' = uc_samples u ++ (match uc_add_res u d with ROk => [d] | _ => [] end)).
+Proof.
+  intros k n x u w d now Hk Hn Hr Hi Hw. cbn zeta.
+  destruct (reachable_holds k n _ _ Hk Hn Hr) as (u0 & Hh). cbn [st_holds] in Hh.
+  pose proof Hh as ((Hi0 & Hu & Hm & Hc) & _). rewrite Hi in Hi0. injection Hi0 as E. subst u0.
+  pose proof Hh as (Hs & _).
+  assert (Hproj : forall s' u', sc_inner s' = IU u' -> forall h m, cmeta (CSDyn (mkSdcoll h m s')) = uc_meta u' /\ pend (CSDyn (mkSdcoll h m s')) = uc_samples u').
+  { intros s' u' Hi' h m. unfold cmeta, pend. cbn [coll_ucoll sd_s]. rewrite Hi'. split; reflexivity. }
+  split; [intros Hne; apply (sd_changed_pending _ n x u d Hh Hne)|]. split; [|split].
+  - intros He. cbn [step c_add]. destruct (sd_changed x d) eqn:Hch.
+    + destruct (sd_add_fresh _ n x u w d now Hn Hh Hch He) as (c' & u' & Ha & Hh' & Hmeta & Hsm). rewrite Ha.
+      exists (CSDyn c'). split; [reflexivity|].
+      destruct (st_holds_pend _ n (CSDyn c') u' Hh') as (Ep' & Em' & _). rewrite Ep', Em'. split; assumption.
+    + rewrite sd_add_eq, Hch. cbn [negb].
+      destruct (sc_add_room _ n (sd_s x) u w d now Hn Hs) as (s' & u' & Ha & (Hi' & _) & Hmeta & Hsm & _).
+      { rewrite He. cbn [length]. lia. }
+      rewrite (uc_add_res_empty _ n u d Hn Hu He) in *. rewrite Ha. eexists. split; [reflexivity|].
+      destruct (Hproj s' u' Hi' (sd_hash x) (sd_mcount x)) as (E1 & E2). rewrite E1, E2, Hsm, He. split; [exact Hmeta|reflexivity].
+  - intros Hne Hcase. cbn [step c_add]. destruct (sd_changed x d) eqn:Hch.
+    + destruct (sd_add_change _ n x u w d now Hn Hh Hch Hne) as (w' & ok & e & Hww & Hlog & Hok & Hres).
+      destruct (w_write_ok w (payload (kind_json k) u) Hw) as (w2 & Hw2 & Hlog2).
+      rewrite Hw2 in Hww. injection Hww as E1 E2. subst w2 ok.
+      destruct Hres as (c' & u' & Ha & Hh' & Hmeta & Hsm). rewrite Ha. exists (CSDyn c'), w'. split; [reflexivity|].
+      split; [exact Hlog2|].
+      destruct (st_holds_pend _ n (CSDyn c') u' Hh') as (Ep' & Em' & _). rewrite Ep', Em'. split; assumption.
+    + destruct Hcase as [Hx|Hge]; [discriminate Hx|].
+      destruct (sc_add_full _ n (sd_s x) u w d now Hn Hs Hge) as (_ & w' & ok & e & Hww & Hlog & Hok & Hres).
+      destruct (w_write_ok w (payload (kind_json k) u) Hw) as (w2 & Hw2 & Hlog2).
+      rewrite Hw2 in Hww. injection Hww as E1 E2. subst w2 ok.
+      destruct Hres as (s' & u' & Ha & (Hi' & _) & Hmeta & Hsm).
+      rewrite sd_add_eq, Hch. cbn [negb]. rewrite Ha. eexists _, w'. split; [reflexivity|]. split; [exact Hlog2|].
+      destruct (Hproj s' u' Hi' (sd_hash x) (sd_mcount x)) as (E1 & E2). rewrite E1, E2. split; assumption.
+  - intros Hne Hch Hlt. cbn [step c_add]. rewrite sd_add_eq, Hch. cbn [negb].
+    destruct (sc_add_room _ n (sd_s x) u w d now Hn Hs Hlt) as (s' & u' & Ha & (Hi' & _) & Hmeta & Hsm & _).
+    rewrite Ha. eexists. split; [reflexivity|].
+    destruct (Hproj s' u' Hi' (sd_hash x) (sd_mcount x)) as (E1 & E2). rewrite E1, E2. split; assumption.
+Qed.
+
+(* schema-aware kinds never mix signatures within one output *)
+Theorem unc_unmixed : forall k n fs ops, unc_kind k = true -> sdyn_kind k = true -> 1 <= n ->
+  let a := snd (spec_trace deflate (init_state k n fs) aspec0 ops) in
+  recs_unmixed a /\ one_schema (a_pend a).
+Proof.
+  intros k n fs ops Hk Hsd Hn. cbn zeta.
+  pose proof (spec_trace_inv (kind_json k) n ops _ _ Hn (init_inv k n fs Hk ltac:(lia))) as HI.
+  pose proof (spec_trace_run ops (init_state k n fs) aspec0) as Hrun.
+  destruct (spec_trace deflate (init_state k n fs) aspec0 ops) as [[c w] a]. cbn [fst snd] in *.
+  assert (Hr : reachable deflate k n (c, w)) by (exists fs, ops; symmetry; exact Hrun).
+  pose proof (reachable_class k n c w Hk Hr) as Hc.
+  destruct HI as ((u & Hh) & (_ & Hp & _) & _ & Hx). cbn [fst snd] in *.
+  assert (Hs : is_sdyn c = true).
+  { destruct c; try contradiction; try reflexivity; destruct k; discriminate. }
+  split; [apply Hx; exact Hs|].
+  destruct (st_holds_pend _ _ _ _ Hh) as (Ep & _). rewrite <- Hp, Ep.
+  apply (sd_pending_one_schema _ n c u Hh Hs).
+Qed.
+
+End Kinds.
